@@ -56,6 +56,13 @@ impl Target {
         let mut tids = Vec::new();
         for i in 0..scen.threads.len() { tids.push(facts[&format!("t{i}.tid")].parse().unwrap()); }
         let shared = std::fs::File::open(&facts["shared"]).map_err(|e| format!("shared page: {e}"))?;
+        // wait until the main thread has settled in its blocking read of stdin (its registers and stack
+        // are then stable between dumps)
+        for _ in 0..400 {
+            let sc = std::fs::read_to_string(format!("/proc/{pid}/syscall")).unwrap_or_default();
+            if sc.starts_with("0 0x0 ") { break; }
+            std::thread::sleep(std::time::Duration::from_micros(500));
+        }
         Ok(Target { child, pid, stdin, reader, facts, fact_list, tids, shared, scen_path })
     }
     pub fn fact_hex(&self, k: &str) -> u64 { u64::from_str_radix(self.facts.get(k).map(|s| s.as_str()).unwrap_or("0"), 16).unwrap_or(0) }
